@@ -66,14 +66,25 @@ macro_rules! arg {
 
 pub fn run(op: &str, args: &[String]) -> Option<String> {
     Some(match op {
-        "ecies.encrypt" => {
-            if args.len() != 4 {
+        "ecies.encrypt" | "ecies.encrypt_wif" => {
+            let wif = op == "ecies.encrypt_wif";
+            if args.len() != (if wif { 4 } else { 5 }) {
                 return Some("BADARG".into());
             }
-            let msg = arg!(arg_bytes(args, 2));
-            let excl = arg!(arg_bool(args, 3));
-            let a = key!(arg_priv(args, 0));
-            let b = key!(arg_pub(args, 1));
+            let o = if wif { 1 } else { 2 };
+            let msg = arg!(arg_bytes(args, o + 1));
+            let excl = arg!(arg_bool(args, o + 2));
+            let a = if wif {
+                let w = arg!(arg_str(args, 0));
+                match PrivateKey::from_wif(&w) {
+                    Ok(k) => k,
+                    Err(_) => return Some("ERR".into()),
+                }
+            } else {
+                let comp = arg!(arg_bool(args, 1));
+                key!(arg_priv(args, 0)).compress_public_key(comp)
+            };
+            let b = key!(arg_pub(args, o));
             match ECIES::encrypt(&msg, &a, &b, excl) {
                 Ok(c) => match c.get_cipher_keys() {
                     Some(k) => format!(
